@@ -27,8 +27,8 @@ NVS = (1e-3, 1e-2, 0.1, 1.0, 10.0, 100.0, 1e3)
 
 # ----------------------------------------------------------------------------- producers
 
-def produce(s, bits, nv, mod=None, dem=None):
-    """bits: 1-D 0/1 array -> LLR array aligned with bits (same length)."""
+def produce(s, bits, nv, mod=None, dem=None, layout="batch"):
+    """bits: 1-D 0/1 array -> LLR array aligned with bits (same length). layout: symbols passed as (1, N) or as a plain 1-D tensor."""
     import torch
     if s["scheme"] == "synthetic":
         return (1 - 2 * bits.astype(np.float64)) * s["mag"]
@@ -46,6 +46,8 @@ def produce(s, bits, nv, mod=None, dem=None):
         x = np.concatenate([x, np.zeros(2)])
     mc.reset(mod, dem)
     y = mod(torch.from_numpy(x.astype(np.float32)).unsqueeze(0))
+    if layout == "1d":
+        y = y.reshape(-1)
     out = dem(y, noise_var=float(nv)).detach().numpy().reshape(-1).astype(np.float64)
     if k == "offset":
         i_llr = out[0::2][:nsym]
@@ -151,14 +153,17 @@ def prod_cell(p):
     return c
 
 
-def check_pair(ctx, prod, cname, bits, kind="thresholder", cons=None, mod=None, dem=None):
+def check_pair(ctx, prod, cname, bits, kind="thresholder", cons=None, mod=None, dem=None, layout="batch"):
     """bits: 1-D array containing both values."""
     import torch
     cell = {"producer": prod["scheme"], **{k: v for k, v in prod_cell(prod).items() if k != "scheme"}, "consumer": cname}
-    case = {"producer": prod, "consumer": cname, "bits": bits.astype(int).tolist(), "kind": kind}
+    if layout != "batch":
+        cell["layout"] = layout
+    case = {"producer": prod, "consumer": cname, "bits": bits.astype(int).tolist(), "kind": kind, "layout": layout}
     if kind == "thresholder":
         factory, pre = cons[cname]
-        ok, llr = ctx.call(lambda: produce(prod, bits, prod.get("noise_var"), mod, dem), "C15.producer_raises", cell, case, checker=CHK)
+        lay = case.get("layout", "batch")
+        ok, llr = ctx.call(lambda: produce(prod, bits, prod.get("noise_var"), mod, dem, lay), "C15.producer_raises", cell, case, checker=CHK)
         if not ok:
             return
         if not pre(llr, bits):
@@ -214,7 +219,7 @@ def check_case(ctx, cell, case):
     bits = np.asarray(case["bits"], dtype=np.float64)
     kind = case.get("kind", "thresholder")
     cons = decoder_consumers() if kind == "decoder" else thresholder_consumers()
-    check_pair(ctx, prod, case["consumer"], bits, kind, cons)
+    check_pair(ctx, prod, case["consumer"], bits, kind, cons, layout=case.get("layout", "batch"))
 
 
 def sequences(prod, rng, tier, short_exhaustive):
@@ -254,6 +259,10 @@ def unit_producers(ctx, producers):
             for cname in cons:
                 check_pair(ctx, prod, cname, bits, "thresholder", cons, mod, dem)
             check_pair(ctx, prod, "repetition_llr", bits, "repetition", None, mod, dem)
+            # the same symbols as a plain 1-D tensor (demodulators have separate unbatched code paths)
+            if prod["scheme"] != "synthetic" and len(bits) >= 10:
+                for cname in ("llr_thresholder", "llr_to_bits", "hysteresis_0.5"):
+                    check_pair(ctx, prod, cname, bits, "thresholder", cons, mod, dem, layout="1d")
         for cname in dcons:
             enc, _ = dcons[cname]()
             k = enc.code_dimension
